@@ -10,6 +10,7 @@ import (
 
 	"golang.org/x/tools/go/packages"
 	"golang.org/x/tools/go/ast/astutil"
+	"golang.org/x/tools/go/cfg"
 	"golang.org/x/tools/go/ssa"
 
 	"ogenverif/internal/core"
@@ -190,6 +191,7 @@ func runC18(c *core.Ctx) error {
 	checkSymmetry(c, prog, r5)
 	checkExhaustion(c, prog, r6)
 	checkRawTextNeverDecides(c, prog)
+	checkNumberSpellingCanonical(c, prog)
 	return nil
 }
 
@@ -908,5 +910,104 @@ func checkExhaustion(c *core.Ctx, prog *core.Prog, r *core.Rule) {
 		if n == 0 {
 			r.Undecided(name+":returns", c.Pos(fn.Pos()), "no possibly-true return found")
 		}
+	}
+}
+
+
+// checkNumberSpellingCanonical (R18.8, S1). Enum members, defaults and examples reach the parser as raw JSON made by
+// jsonschema.convertYAMLtoRawJSON, and the generator later compares the values parsed from that text with
+// reflect.DeepEqual (default responses, allOf merging), where int64(1) and float64(1) differ. What makes `1`, `1.0`
+// and `1e0` the same value there is that every document scalar is re-spelled by one converter (YAMLToJSON) before it
+// is parsed. The structural necessary condition decided here: convertYAMLtoRawJSON has no success return that is
+// reachable without passing through that converter — a shortcut that hands a scalar's own text back makes the
+// equality used for enums and defaults sensitive to number spelling.
+func checkNumberSpellingCanonical(c *core.Ctx, prog *core.Prog) {
+	r := c.NewRule("R18.8", "S1", "every value convertYAMLtoRawJSON returns was spelled by the one YAML→JSON converter (no verbatim shortcut for scalars)", 1)
+	pkg := prog.PkgBy[pkgJS]
+	if pkg == nil {
+		r.Undecided("load:jsonschema", "-", "package not loaded")
+		return
+	}
+	var fd *ast.FuncDecl
+	for _, f := range pkg.Syntax {
+		for _, d := range f.Decls {
+			if x, ok := d.(*ast.FuncDecl); ok && x.Recv == nil && x.Name.Name == "convertYAMLtoRawJSON" && x.Body != nil {
+				fd = x
+			}
+		}
+	}
+	if fd == nil {
+		r.Undecided("anchor:convertYAMLtoRawJSON", "-", "function not found")
+		return
+	}
+	isConv := func(n ast.Node) bool {
+		found := false
+		ast.Inspect(n, func(m ast.Node) bool {
+			if _, isLit := m.(*ast.FuncLit); isLit {
+				return false
+			}
+			if ce, ok := m.(*ast.CallExpr); ok {
+				if se, ok := ce.Fun.(*ast.SelectorExpr); ok {
+					if fn, ok := pkg.TypesInfo.Uses[se.Sel].(*types.Func); ok && fn.Name() == "YAMLToJSON" {
+						found = true
+					}
+				}
+			}
+			return true
+		})
+		return found
+	}
+	g := cfg.New(fd.Body, func(*ast.CallExpr) bool { return true })
+	// blocks reachable from the entry without executing a conversion; a block that contains the conversion is entered
+	// but not left (the statements before the call inside it are examined, the successors are not)
+	nConv := 0
+	seen := map[*cfg.Block]bool{}
+	var stack []*cfg.Block
+	if len(g.Blocks) > 0 {
+		stack = append(stack, g.Blocks[0])
+		seen[g.Blocks[0]] = true
+	}
+	bad := 0
+	for len(stack) > 0 {
+		b := stack[len(stack)-1]
+		stack = stack[:len(stack)-1]
+		converted := false
+		for _, n := range b.Nodes {
+			if isConv(n) {
+				converted = true
+				nConv++
+			}
+			ret, ok := n.(*ast.ReturnStmt)
+			if !ok || converted {
+				continue
+			}
+			// a return reached without conversion: fine only if it reports an error (last result not the literal nil)
+			success := len(ret.Results) == 0
+			if len(ret.Results) > 0 {
+				if id, ok := ret.Results[len(ret.Results)-1].(*ast.Ident); ok && id.Name == "nil" {
+					success = true
+				}
+			}
+			if success {
+				bad++
+				r.Fail("convertYAMLtoRawJSON:unconverted-return", c.Pos(ret.Pos()), "convertYAMLtoRawJSON returns a value that did not pass through YAMLToJSON: a scalar handed back in its own spelling makes `1` and `1.0` (int64 vs float64 once parsed) different enum members / defaults for the generator's DeepEqual comparisons")
+			}
+		}
+		if converted {
+			continue
+		}
+		for _, s := range b.Succs {
+			if !seen[s] {
+				seen[s] = true
+				stack = append(stack, s)
+			}
+		}
+	}
+	convAnywhere := isConv(fd.Body)
+	switch {
+	case !convAnywhere:
+		r.Undecided("anchor:YAMLToJSON", c.Pos(fd.Pos()), "convertYAMLtoRawJSON no longer calls a YAMLToJSON converter: the rule's anchor is gone")
+	case bad == 0:
+		r.Pass("convertYAMLtoRawJSON: no success return is reachable without the YAML→JSON conversion")
 	}
 }
